@@ -45,6 +45,8 @@
 import DDProofs.DynExample
 import DDProofs.DynSift
 import DDProofs.DynCube
+import DDProofs.DynExpr
+import DDProofs.DynLoad
 import DDProps.Tables
 namespace DD
 
@@ -344,16 +346,173 @@ theorem C09_chained_calls_transparent (ext : Nat → Nat) (m : Mgr) (hD : DynInv
           ((if denN m.tbl g σ then denN m.tbl u σ else denN m.tbl v σ) && denN m.tbl w σ) :=
   ite_then_and_transparent ext m hD siftContract g u v w hg hu hv hw
 
+/-! ## `add_expr` -/
+
+/-- C09, the bottom-up evaluation of a syntax tree INSIDE a reordering context (what the
+translator of `add_expr` does during the reductions): every node of the tree is a public decorated
+operation (`var`, `apply`, `quantify`, `rename`) nested in the context, where its decorator runs the
+body and re-raises the signal.  For a meaningful tree the evaluation returns the reference of the
+documented meaning (`evalFormula`, by variable name), or it is aborted by a reordering request —
+at whichever `find_or_add` of whichever operation — having only added nodes. -/
+theorem C09_evalAst_abort_aware (t : Ast) (m : Mgr) (hI : Inv m) (hc : m.ctx = true)
+    (hO : OrderOK m.tbl) (hM : Meaningful m.tbl t) :
+    Outcome m (fun r m' => m'.tbl.Mem r ∧ ∀ σ, denN m'.tbl r σ = evalFormula m.tbl t σ)
+      (evalAst t m) :=
+  evalAst_out t m hI hc hO hM
+
+/-- C09 `add_expr`: for a text `s` that the front end reads as the tree `t` (C05), meaningful in
+the manager (names declared, no `=`, every `@n` a node) and whose `@n` nodes the user holds:
+with dynamic reordering enabled or not, and at whichever `find_or_add` of whichever nested
+operation the request fires, `add_expr(s)` returns normally a reference that denotes — by variable
+NAME — the value the independent evaluator `evalFormula` gives to the tree, the `@n` read as the
+functions those nodes had at the call (`ExprDoc`); the state is again as between two calls
+(`DynInv`: invariant, counts exact for the same ledger, flag cleared), reordering is enabled iff
+it was, the declared names are the same, every held reference keeps its meaning by name.  All
+constructs of the grammar are covered: names, constants, `@n`, `~`, the binary connectives,
+`ite(…)`, `\A` / `\E`, `\S`.
+
+The intermediate results of the evaluation are NOT referenced (the translator holds plain
+integers): that is harmless, because no sifting happens in the middle of an evaluation — an
+aborted attempt leaves only unreferenced nodes, sifting collects them, and the retry starts again
+from the operands the user holds. -/
+theorem C09_addExpr_transparent (ext : Nat → Nat) (m : Mgr) (hD : DynInv ext m) (s : String)
+    (t : Ast) (hp : parse (tokenize s) = some t) (hM : Meaningful m.tbl t)
+    (hheld : ∀ u ∈ t.atNodes, HeldX ext u) :
+    ∃ r m', addExpr s m = (.ok r, m') ∧ DynPostG ext (ExprDoc t) m r m' :=
+  addExpr_transparent ext (siftContract ext) m hD s t hp hM hheld
+
+/-- C09 `add_expr`, "invisible" literally: the call with reordering enabled (any threshold, any
+trigger position) and the call on the same manager with reordering switched off both return
+normally, and the two results denote the same function of the variable names. -/
+theorem C09_addExpr_same_as_disabled (ext : Nat → Nat) (m : Mgr) (hD : DynInv ext m) (s : String)
+    (t : Ast) (hp : parse (tokenize s) = some t) (hM : Meaningful m.tbl t)
+    (hheld : ∀ u ∈ t.atNodes, HeldX ext u) :
+    ∃ r m' r0 m0', addExpr s m = (.ok r, m') ∧
+      addExpr s { m with lastLen := none } = (.ok r0, m0') ∧ m'.tbl.Mem r ∧ m0'.tbl.Mem r0 ∧
+      ∀ σ, denN m'.tbl r σ = denN m0'.tbl r0 σ := by
+  have hD0 : DynInv ext { m with lastLen := none } :=
+    ⟨⟨hD.inv.wf, hD.inv.pred, hD.inv.freeGe, hD.inv.free, hD.inv.refOne, hD.inv.refDom, hD.inv.cache⟩,
+      hD.order, hD.refs.congr rfl rfl, hD.ctx, hD.sched, hD.roots, hD.nvars⟩
+  obtain ⟨r, m', he, hp1⟩ := C09_addExpr_transparent ext m hD s t hp hM hheld
+  obtain ⟨r0, m0', he0, hp0⟩ := C09_addExpr_transparent ext _ hD0 s t hp hM hheld
+  exact ⟨r, m', r0, m0', he, he0, hp1.doc.1, hp0.doc.1, fun σ => by rw [hp1.doc.2 σ, hp0.doc.2 σ]⟩
+
+/-- C09 `add_expr` from the text of a tree: the canonical text of any lexically well-formed,
+meaningful tree — with the parentheses the precedence table requires and any redundant ones
+(`ex`) — is given the meaning of the tree, reordering enabled or not (C05's round trip
+`parse_tokenize_spell` composed with the theorem above) -/
+theorem C09_addExpr_text_transparent (ext : Nat → Nat) (m : Mgr) (hD : DynInv ext m)
+    (ex : Ast → Bool) (t : Ast) (hwf : t.WF) (hlex : t.LexWF) (hM : Meaningful m.tbl t)
+    (hheld : ∀ u ∈ t.atNodes, HeldX ext u) :
+    ∃ r m', addExpr (spell (printG ex t)) m = (.ok r, m') ∧ DynPostG ext (ExprDoc t) m r m' :=
+  C09_addExpr_transparent ext m hD _ t (parse_tokenize_spell ex t hwf hlex) hM hheld
+
+/-- the formula of the non-vacuity example: a quantifier, `@n`, `~`, connectives, `ite(…)`, `\S` -/
+def exFormula : String := "\\E a: (@4 | ~ b) & ite(a, b, TRUE) & (\\S b / a: a)"
+
+def exFormulaTree : Ast :=
+  .quant false ["a"] (.bin .and (.bin .and (.bin .or (.num false "4") (.not (.var "b")))
+    (.ite (.var "a") (.var "b") (.bool true))) (.subst [("b", "a")] (.var "a")))
+
+/-- non-vacuity of `C09_addExpr_transparent`: on `exDyn` (reordering enabled, a request due at the
+next `find_or_add`) the text reads as the tree, the tree is meaningful, its `@4` is held; the first
+evaluation IS aborted by the request (so the call goes through sifting and the retry) -/
+example : DynInv exExt exDyn ∧ parse (tokenize exFormula) = some exFormulaTree ∧
+    Meaningful exDyn.tbl exFormulaTree ∧ (∀ u ∈ exFormulaTree.atNodes, HeldX exExt u) ∧
+    (evalAst exFormulaTree { exDyn with ctx := true }).1.toOption = none := by
+  have ha : exDyn.tbl.vars.contains "a" = true := by decide
+  have hb : exDyn.tbl.vars.contains "b" = true := by decide
+  have h4 : exDyn.tbl.Mem (if false = true then -(digitsToNat "4" : Int) else (digitsToNat "4" : Int)) :=
+    Or.inr (by decide)
+  refine ⟨exDyn_dynInv, by decide, ?_, ?_, by decide +kernel⟩
+  · refine ⟨?_, ⟨by decide, ⟨by decide, ⟨by decide, h4, hb⟩, ha, hb, trivial⟩, ?_, ha⟩⟩
+    · intro x hx
+      simp only [List.mem_cons, List.not_mem_nil, or_false] at hx
+      subst hx; exact ha
+    · intro p hp
+      simp only [List.mem_cons, List.not_mem_nil, or_false] at hp
+      subst hp; exact hb
+  · intro u hu
+    have : u = 4 := by
+      simp only [exFormulaTree, Ast.atNodes, List.append_nil, List.mem_cons,
+        List.not_mem_nil, or_false] at hu
+      rw [hu]; decide
+    subst this
+    exact exExt_held4
+
+/-! ## `load` -/
+
+/-- C09: OUTSIDE a reordering context `find_or_add` does not even call `_request_reordering`
+(repair F4a: `if self._reordering_context: _request_reordering(self)`), whatever `_last_len` is -/
+theorem C09_findOrAdd_outside_context (i v w : Int) (m : Mgr) (hc : m.ctx = false) :
+    findOrAdd i v w m = if i < 0 then (.error .value, m) else findOrAddCore i.toNat v w m :=
+  findOrAdd_noctx i v w m hc
+
+/-- C09 `load` (pickle) NEVER reorders.  `BDD.load` / `_load_pickle` / `_load` are not decorated,
+open no reordering context, and build the nodes with the private `find_or_add` / `_ite`.  Hence
+for ANY value of `_last_len` — dynamic reordering enabled at whatever threshold, or not — the call
+(outside a context) returns exactly what it returns with `_last_len = None`, in exactly that
+state except that `_last_len` is what it was; the reordering signal is not raised;
+`_request_reordering` is not called (the trigger counter `fireIn` is untouched); the flag stays
+cleared. -/
+theorem C09_load_never_reorders (f : PickleFile) (levels : Bool) (m : Mgr) (hc : m.ctx = false) :
+    loadPickle f levels m =
+      ((loadPickle f levels { m with lastLen := none }).1,
+       { (loadPickle f levels { m with lastLen := none }).2 with lastLen := m.lastLen }) ∧
+    (loadPickle f levels m).1 ≠ .error .needsReordering ∧
+    (loadPickle f levels m).2.lastLen = m.lastLen ∧
+    (loadPickle f levels m).2.fireIn = m.fireIn ∧
+    (loadPickle f levels m).2.ctx = false :=
+  loadPickle_never_reorders f levels m hc
+
+/-- the same for `dd.autoref.BDD.load` of a pickle (the roots wrapped in `Function`s) -/
+theorem C09_load_autoref_never_reorders (f : PickleFile) (levels : Bool) (m : Mgr)
+    (hc : m.ctx = false) :
+    loadPickleAutoref f levels m =
+      ((loadPickleAutoref f levels { m with lastLen := none }).1,
+       { (loadPickleAutoref f levels { m with lastLen := none }).2 with lastLen := m.lastLen }) ∧
+    (loadPickleAutoref f levels m).1 ≠ .error .needsReordering :=
+  loadPickleAutoref_never_reorders f levels m hc
+
+/-- C09 / C12: the theorem of C12 for `BDD.load` (`C12_pickle_load`: any well-formed content, any
+`levels`, any order of the receiving manager, constant or absent roots) holds VERBATIM with
+dynamic reordering enabled — there is no hypothesis on `_last_len` — and the threshold and the
+trigger counter are what they were. -/
+theorem C09_load_spec_enabled (f : PickleFile) (levels : Bool)
+    (m : Mgr) (hI : Inv m) (hb : DmpVarsBij m.tbl) (hc : m.ctx = false)
+    (hwf : PickleWF f) (hr : RootsResolvable f)
+    (lm : List (Nat × Nat)) (m1 : Mgr)
+    (hv : loadVars levels f.vars.length f.vars [] m = (.ok lm, m1))
+    (hg : Contig m1.tbl) :
+    ∃ roots' m', loadPickle f levels m = (.ok roots', m') ∧ Inv m' ∧ DmpVarsBij m'.tbl ∧
+      Contig m'.tbl ∧ m'.ctx = false ∧ (∀ u n, m.tbl.node? u = some n → m'.tbl.node? u = some n) ∧
+      LoadedFrom f m'.tbl roots' ∧ m'.lastLen = m.lastLen ∧ m'.fireIn = m.fireIn :=
+  pickle_load_enabled f levels m hI hb hc hwf hr lm m1 hv hg
+
+/-- non-vacuity: the target `mgrAB` of C12's example with reordering ENABLED and a request due at
+the very next eligible `find_or_add` (`fireIn = 1`): every hypothesis of `C09_load_spec_enabled`
+holds, and the model computes the ordered diagram of `a ∧ b` with the threshold and the trigger
+counter untouched -/
+example : PickleWF fileBA ∧ Inv { mgrAB with lastLen := some 1, fireIn := some 1 } ∧
+    DmpVarsBij ({ mgrAB with lastLen := some 1, fireIn := some 1 } : Mgr).tbl ∧
+    ({ mgrAB with lastLen := some 1, fireIn := some 1 } : Mgr).ctx = false ∧
+    (loadPickle fileBA false { mgrAB with lastLen := some 1, fireIn := some 1 }).1 = .ok (.list [4]) ∧
+    (loadPickle fileBA false { mgrAB with lastLen := some 1, fireIn := some 1 }).2.lastLen = some 1 ∧
+    (loadPickle fileBA false { mgrAB with lastLen := some 1, fireIn := some 1 }).2.fireIn = some 1 := by
+  have hI := mgrAB_nodeFree.inv
+  exact ⟨fileBA_wf, ⟨hI.wf, hI.pred, hI.freeGe, hI.free, hI.refOne, hI.refDom, hI.cache⟩, mgrAB_bij,
+    rfl, by decide +kernel⟩
+
 /-! ## what is not covered
 
 Proved above for the decorated entry points of the model: `ite`, `apply` (binary propositional
 aliases, `ite`, quantifier aliases), `var`, `quantify`/`exist`/`forall`, `let` in its three forms
-(`cofactor`, `compose`, `rename`), `cube`, `copy_bdd` into the manager, and the chaining of calls
-with `incref` in between.  NOT covered by a theorem: `add_expr` as a whole (the parser's tree walk
-of C05 is a chain of the calls above with the intermediate results held by the autoref wrapper —
-`C09_chained_calls_transparent` is the two-call instance; the general statement is C08's history
-theorem composed with the theorems above), `load` (C12/C16), and the undecorated `image`,
-`preimage`, `autoref.BDD.find_or_add`, for which the property is FALSE of the code (known findings
-F4a/F4c).  Those are decided by correspondence at every trigger position. -/
+(`cofactor`, `compose`, `rename`), `cube`, `copy_bdd` into the manager, `add_expr` (every construct
+of the grammar), the chaining of calls with `incref` in between; `load` (pickle) never reorders.
+NOT covered by a theorem: `load_json` (its reader is correspondence-only in C12 as well; it calls
+the decorated `var` / `ite` of `dd.autoref`, whose wrappers hold every operand), DDDMP `load` (C16),
+and the undecorated `image`, `preimage`, `autoref.BDD.find_or_add`, for which the property is FALSE
+of the code (known findings F4a/F4c).  Those are decided by correspondence at every trigger
+position. -/
 
 end DD
